@@ -392,6 +392,7 @@ fn cmd_replay(args: &[String]) -> i32 {
         "filename" => props::seq::replay_file_name(rp),
         "pvote" => props::pvote::replay(rp),
         "pvtail" => props::pvote::replay_tail(rp),
+        "pcap" => props::pvote::replay_pcap(rp),
         "c16c" => {
             let seed: u64 = rp["seed"].as_str().and_then(|s| s.parse().ok()).unwrap_or(1);
             (0..20).find_map(|_| props::seq::c16_concurrent(seed))
